@@ -554,6 +554,10 @@ def probe_f27(c):
         for p, res, *_ in pr.snaps:
             if p >= 2 and np.any(np.asarray(res[0]["x"]) < 6.0 - 1e-3):
                 reproduced = True
+        # whatever happens to the critical goal, the earlier priority's attainment (x <= 5) must survive it:
+        # a store update that lets the later critical goal win (seeded change c02k) degrades priority 1
+        check_no_degradation(c, dict(probe="F27", goals=[s.describe() for s in specs]), goals_by_priority(specs),
+                             pr.snaps, [pr.extract_results(0)], pr.goal_programming_options(), 1, 4, False)
     c.known_probe("F27", reproduced,
                   "critical goal x>=6 disjoint from the retained bound x<=5 of an earlier priority: the store keeps "
                   "the earlier bound, the critical goal is silently not met (optimize() returns True)")
